@@ -183,6 +183,25 @@ def run(fx, tier):
                     okp = isinstance(pr, dict) and pr.get('k') == 'mem' and pr.get('n') == 'props' and is_member_of_this(core(pr.get('b')), '_context')
                     v.check(okp, 'R-FLOW', inst + ':props', 'DISCONNECT is first encoded with _context.props (the caller\'s)',
                             key='C09:R-FLOW:disconnect_op:props', where=o.where())
+                # the caller's properties are dropped only when the packet is STRICTLY larger than the broker's Maximum
+                # Packet Size: a second encoding (without them) needs the fact  size > maximum  on its path
+                ofs = [o for o in p.calls('of') if callee_cls(o.x) == 'control_packet']
+                if len(ofs) >= 2:
+                    strict = False
+                    for c in p.conds():
+                        cm = p.cmp(c)
+                        if not cm or cm[0] not in ('<', '>', '<=', '>='):
+                            continue
+                        op, l_, r_ = cm
+                        szl = contains(l_, lambda n: is_call(n, 'size') and callee_cls(n) == 'control_packet')
+                        szr = contains(r_, lambda n: is_call(n, 'size') and callee_cls(n) == 'control_packet')
+                        capl = contains(l_, lambda n: is_call(n, 'connack_property'))
+                        capr = contains(r_, lambda n: is_call(n, 'connack_property'))
+                        if (szl and capr and op == '>') or (szr and capl and op == '<'):
+                            strict = True
+                    v.check(strict, 'R-FLOW', inst + ':props-dropped-only-when-too-large',
+                            'the properties are dropped only on the edge  encoded size > Maximum Packet Size  (a packet of exactly that size is legal)',
+                            key='C09:R-FLOW:disconnect_op:props-dropped-strictly', where=ofs[1].where())
     # the context is built from the public call's arguments
     for f in fx.functions(cls='initiate_async_disconnect', name='operator()'):
         v.saw(f)
